@@ -40,6 +40,9 @@ func (g *gen) validSetter() (string, int) {
 		return fmt.Sprintf("ecd:%d", g.r.pick(ecCodes)), tlv(4 + 40)
 	default:
 		n := 1 + g.r.intn(20)
+		if g.r.chance(1, 4) { // more than the 20 entries the setter's stack buffer holds
+			n = 21 + g.r.intn(60)
+		}
 		parts := make([]string, n)
 		for i := range parts {
 			parts[i] = fmt.Sprint(g.r.intn(65536))
